@@ -236,13 +236,21 @@ mod protected {
                     let mut arr = HeapByteArray::<LENGTH>::gen_locked()
                         .expect("couldn't create locked bytes");
                     let mut idx: usize = 0;
-                    let size_hint = seq.size_hint().unwrap_or(0);
+                    // not every format knows the element count up front (serde_json does not)
+                    let size_hint = seq.size_hint().unwrap_or(LENGTH);
                     if size_hint != LENGTH {
                         Err(Error::invalid_length(size_hint, &stringify!(LENGTH)))
                     } else {
+                        // the size hint is only a hint: count the elements
                         while let Some(elem) = seq.next_element()? {
+                            if idx >= LENGTH {
+                                return Err(Error::invalid_length(idx + 1, &stringify!(LENGTH)));
+                            }
                             arr[idx] = elem;
                             idx += 1;
+                        }
+                        if idx != LENGTH {
+                            return Err(Error::invalid_length(idx, &stringify!(LENGTH)));
                         }
 
                         Ok(arr)
